@@ -27,9 +27,9 @@ FieldSets == IF Rich THEN {<<>>, <<[n |-> <<72, 111, 115, 116>>, v |-> <<104, 46
 Payloads == IF Rich THEN {<<>>, <<65>>, <<71, 69, 84, 32, 47, 115, 32, 72, 84, 84, 80, 47, 49, 46, 49, 13, 10, 13, 10>>, <<13, 10, 48, 13, 10, 13, 10>>}
             ELSE IF Level = 1 THEN {<<65>>, <<71, 69, 84, 32, 47, 115, 32, 72, 84, 84, 80, 47, 49, 46, 49, 13, 10, 13, 10>>} ELSE {<<71, 69, 84, 32, 47, 115, 32, 72, 84, 84, 80, 47, 49, 46, 49, 13, 10, 13, 10>>}
 ChunkLists == IF Rich THEN {<<>>, <<<<65, 66>>>>, <<<<13, 10>>, <<48>>>>, <<<<71, 69, 84, 32, 47, 115, 32, 72, 84, 84, 80, 47, 49, 46, 49, 13, 10, 13, 10>>>>} ELSE {<<<<13, 10>>, <<48>>>>}
-Bodies == {[k |-> "none"]} \cup {[k |-> "len", d |-> p] : p \in Payloads} \cup {[k |-> "chunked", parts |-> c] : c \in ChunkLists}
+Bodies == (IF Level = 0 THEN {} ELSE {[k |-> "none"]}) \cup {[k |-> "len", d |-> p] : p \in Payloads} \cup {[k |-> "chunked", parts |-> c] : c \in ChunkLists}
 Descriptors == {[m |-> m, t |-> t, v |-> v, close |-> c, fs |-> f, body |-> b] :
-                  m \in Methods, t \in Targets, v \in {<<72, 84, 84, 80, 47, 49, 46, 49>>, <<72, 84, 84, 80, 47, 49, 46, 48>>}, c \in BOOLEAN, f \in FieldSets, b \in Bodies}
+                  m \in Methods, t \in Targets, v \in {<<72, 84, 84, 80, 47, 49, 46, 49>>, <<72, 84, 84, 80, 47, 49, 46, 48>>}, c \in (IF Level = 0 THEN {FALSE} ELSE BOOLEAN), f \in FieldSets, b \in Bodies}
 
 RECURSIVE Dec(_)
 Dec(n) == IF n < 10 THEN <<48 + n>> ELSE Dec(n \div 10) \o <<48 + (n % 10)>>
